@@ -151,6 +151,19 @@ def join(a, b):
         return a
     if a == b:
         return a
+    # a short-circuit `c || (x op 0)` / `c && (x op 0)` materialised in a bool: the join of a literal bool and a comparison keeps the comparison,
+    # remembering which truth value can also come from the literal (no refinement is possible on that edge)
+    for x, y in ((a, b), (b, a)):
+        if x[0] == "bool" and y[0] == "rel0":
+            extra = y[3] if len(y) > 3 else None
+            if extra is None or extra == x[1]:
+                return ("rel0", y[1], y[2], x[1])
+            return ("unk", "bool")
+    if a[0] == "rel0" and b[0] == "rel0" and a[1:3] == b[1:3]:
+        ea, eb = (a[3] if len(a) > 3 else None), (b[3] if len(b) > 3 else None)
+        if ea is None or eb is None or ea == eb:
+            return ("rel0", a[1], a[2], ea if ea is not None else eb) if (ea is not None or eb is not None) else a
+        return ("unk", "bool")
     if a[0] == "n" and b[0] == "n":
         C = (a[2] | b[2]) if (a[2] is not None and b[2] is not None) else None
         vn = a[3] if a[3] == b[3] else None
@@ -339,13 +352,15 @@ class Engine:
         outs = []
         listed = [x for x, _ in t["tg"]]
         if v and v[0] == "rel0":
+            extra = v[3] if len(v) > 3 else None       # truth value that may also come from a literal: no refinement on that edge
             for val, tb in t["tg"]:
-                op = v[2] if val != 0 else NEGATE[v[2]]
-                e = self._refine(env, v[1], OPSETS[op])
+                truth = val != 0
+                op = v[2] if truth else NEGATE[v[2]]
+                e = env if extra is not None and extra == truth else self._refine(env, v[1], OPSETS[op])
                 if e is not None:
                     outs.append((tb, e))
             if 0 in listed:
-                e = self._refine(env, v[1], OPSETS[v[2]])
+                e = env if extra is True else self._refine(env, v[1], OPSETS[v[2]])
             else:
                 e = env
             if e is not None:
@@ -644,7 +659,7 @@ class Engine:
                     nx = as_num(x)
                     v = num(_neg(nx[1]), {-c for c in nx[2]} if nx[2] is not None else None, ("v", site))
                 elif rv.get("op") == "Not" and x and x[0] == "rel0":
-                    v = ("rel0", x[1], NEGATE[x[2]])
+                    v = ("rel0", x[1], NEGATE[x[2]]) if len(x) == 3 or x[3] is None else ("rel0", x[1], NEGATE[x[2]], not x[3])
                 elif rv.get("op") == "Not" and x and x[0] == "bool":
                     v = ("bool", not x[1])
                 else:
